@@ -102,6 +102,12 @@ pub fn judge_seq(ctx: &mut Ctx, src: &str, ds: &str, de: &str, gen_name: &str) {
             if !want_pairs.is_empty() {
                 ctx.count("sequences-with-pairs");
             }
+            // end to end, for a sample: the elements the remover actually evaluates (Decision hook
+            // events of one `clean` call with `a` / `b` configured as the two tag names) are the
+            // reference pairs named `a` / `b` - whatever the front end does with other names
+            if api::HOOKS_ENABLED && (h % 8 == 0 || gen_name.starts_with("many-") || gen_name == "replay") {
+                e2e(ctx, src, ds, de, gen_name);
+            }
             let demoted = want_order.len() - 2 * want_pairs.len();
             if demoted > 0 && !want_pairs.is_empty() {
                 ctx.count("sequences-with-pairs-and-stray-tokens");
@@ -109,6 +115,55 @@ pub fn judge_seq(ctx: &mut Ctx, src: &str, ds: &str, de: &str, gen_name: &str) {
             ctx.shape(hash64(&[&want_pairs.len().to_le_bytes(), &want_order.len().to_le_bytes(), &ft.parents.iter().filter(|p| p.1.is_some()).count().to_le_bytes()]));
             if ctx.sample_due() {
                 ctx.sample(|| json!({"generator": gen_name, "source": src, "delimiters": [ds, de], "pairs(open_byte,close_byte)": want_pairs}));
+            }
+        }
+    }
+}
+
+/// Elements as consumed by the remover vs. the stack rule (registered names only).
+fn e2e(ctx: &mut Ctx, src: &str, ds: &str, de: &str, gen_name: &str) {
+    let spans = rscan(src, ds, de);
+    let mut names: Vec<Option<String>> = vec![];
+    for (a, b, tag) in &spans {
+        names.push(if *tag { rtag(&src[a + ds.len()..b - de.len()]).map(|t| t.0) } else { None });
+    }
+    let Some(pairs) = crate::refmodel::rpair_checked(&names) else {
+        return;
+    };
+    let mut want: Vec<(usize, usize, String)> = pairs
+        .iter()
+        .filter_map(|(o, c)| {
+            let n = names[*o].clone()?;
+            if n == "a" || n == "b" {
+                Some((spans[*o].0, spans[*c].1, n))
+            } else {
+                None
+            }
+        })
+        .collect();
+    want.sort();
+    let sp = api::Sp::new(ds, de, "a", "b");
+    let cfg = crate::doc::step_cfg(crate::doc::STEP);
+    match api::call_clean(src, &sp, &cfg) {
+        Err(_) => ctx.count("e2e: clean panicked (C01 territory)"),
+        Ok((_, ev)) => {
+            let mut got: Vec<(usize, usize, String)> = ev
+                .iter()
+                .filter_map(|e| match e {
+                    api::Event::Decision { open_start, close_end, name, .. } if name == "a" || name == "b" => Some((*open_start, *close_end, name.clone())),
+                    _ => None,
+                })
+                .collect();
+            got.sort();
+            ctx.count_n("e2e:decision-events", got.len() as u64);
+            if got != want {
+                ctx.violation(
+                    gen_name,
+                    format!("elements evaluated by the remover {:?} != pairs by the stack rule {:?} (names a, b registered) :: {:?}", got, want, trunc(src, 300)),
+                    json!({"kind": "pair", "src": src, "ds": ds, "de": de}),
+                );
+            } else {
+                ctx.count("e2e:sequences-held");
             }
         }
     }
